@@ -1,3 +1,643 @@
+/-
+  C03 — helper definitions and lemmas.
+
+  Layer 1: the `BitVec 32` functions of ring.h characterised in `Nat` under the
+           index invariant `WF`.
+  Layer 2: the abstraction relation `Abs r buf q` ("the ring `r` over buffer
+           `buf` stores exactly the queue `q`") and its preservation by every
+           operation.
+-/
 import IgrisModel.C03.Model
 namespace Igris.C03
+open Igris.Proto
+
+/-! ### invariant, element count -/
+
+/-- the index invariant of the property: `head, tail ∈ [0, size)` -/
+def RingHead.WF (r : RingHead) : Prop :=
+  r.head.toNat < r.size.toNat ∧ r.tail.toNat < r.size.toNat
+
+instance (r : RingHead) : Decidable r.WF := by unfold RingHead.WF; exact inferInstance
+
+/-- `(H − T) mod S` for `H, T < S`, written without `%` -/
+def cntN (S H T : Nat) : Nat := if T ≤ H then H - T else S + H - T
+
+/-- number of stored elements, in `Nat`: `(head − tail) mod size` -/
+def RingHead.cnt (r : RingHead) : Nat := cntN r.size.toNat r.head.toNat r.tail.toNat
+
+/-- successor of a slot index -/
+def nextIdx (S x : Nat) : Nat := if x + 1 = S then 0 else x + 1
+
+theorem mod_wrap {S x : Nat} (h : x < 2 * S) : x % S = if x < S then x else x - S := by
+  split
+  · exact Nat.mod_eq_of_lt ‹_›
+  · rw [Nat.mod_eq_sub_mod (by omega), Nat.mod_eq_of_lt (by omega)]
+
+theorem nextIdx_eq_mod {S x : Nat} (h : x < S) : nextIdx S x = (x + 1) % S := by
+  rw [mod_wrap (by omega)]; unfold nextIdx; split <;> split <;> omega
+
+theorem cnt_eq_mod (r : RingHead) (h : r.WF) :
+    r.cnt = (r.head.toNat + r.size.toNat - r.tail.toNat) % r.size.toNat := by
+  obtain ⟨h1, h2⟩ := h
+  rw [mod_wrap (by omega)]; unfold RingHead.cnt cntN; split <;> split <;> omega
+
+/-! ### layer 1 -/
+
+@[simp] theorem moveHeadOne_tail (r : RingHead) : (ringMoveHeadOne r).tail = r.tail := rfl
+@[simp] theorem moveHeadOne_size (r : RingHead) : (ringMoveHeadOne r).size = r.size := rfl
+@[simp] theorem moveTailOne_head (r : RingHead) : (ringMoveTailOne r).head = r.head := rfl
+@[simp] theorem moveTailOne_size (r : RingHead) : (ringMoveTailOne r).size = r.size := rfl
+@[simp] theorem moveHead_tail (r : RingHead) (b : U32) : (ringMoveHead r b).tail = r.tail := rfl
+@[simp] theorem moveHead_size (r : RingHead) (b : U32) : (ringMoveHead r b).size = r.size := rfl
+@[simp] theorem moveTail_head (r : RingHead) (b : U32) : (ringMoveTail r b).head = r.head := rfl
+@[simp] theorem moveTail_size (r : RingHead) (b : U32) : (ringMoveTail r b).size = r.size := rfl
+
+theorem moveHeadOne_head (r : RingHead) (h : r.head.toNat < r.size.toNat) :
+    (ringMoveHeadOne r).head.toNat = nextIdx r.size.toNat r.head.toNat := by
+  unfold ringMoveHeadOne nextIdx
+  simp only [beq_iff_eq]
+  split <;> split <;> bv_omega
+
+theorem moveTailOne_tail (r : RingHead) (h : r.tail.toNat < r.size.toNat) :
+    (ringMoveTailOne r).tail.toNat = nextIdx r.size.toNat r.tail.toNat := by
+  unfold ringMoveTailOne nextIdx
+  simp only [beq_iff_eq]
+  split <;> split <;> bv_omega
+
+theorem empty_iff (r : RingHead) : ringEmpty r = true ↔ r.head.toNat = r.tail.toNat := by
+  unfold ringEmpty
+  simp only [beq_iff_eq]
+  constructor <;> intro h <;> bv_omega
+
+theorem full_iff (r : RingHead) (h : r.WF) :
+    ringFull r = true ↔ nextIdx r.size.toNat r.head.toNat = r.tail.toNat := by
+  obtain ⟨h1, h2⟩ := h
+  unfold ringFull nextIdx
+  simp only [beq_iff_eq]
+  split <;> split <;> constructor <;> intro h <;> bv_omega
+
+theorem avail_toNat (r : RingHead) (h : r.WF) : (ringAvail r).toNat = r.cnt := by
+  obtain ⟨h1, h2⟩ := h
+  unfold ringAvail RingHead.cnt cntN
+  split <;> split <;> bv_omega
+
+theorem room_toNat (r : RingHead) (h : r.WF) :
+    (ringRoom r).toNat = r.size.toNat - 1 - r.cnt := by
+  obtain ⟨h1, h2⟩ := h
+  unfold ringRoom RingHead.cnt cntN
+  split <;> split <;> bv_omega
+
+theorem empty_iff_cnt (r : RingHead) (h : r.WF) : ringEmpty r = true ↔ r.cnt = 0 := by
+  rw [empty_iff]; obtain ⟨h1, h2⟩ := h; unfold RingHead.cnt cntN; split <;> omega
+
+theorem full_iff_cnt (r : RingHead) (h : r.WF) :
+    ringFull r = true ↔ r.cnt = r.size.toNat - 1 := by
+  rw [full_iff r h]; obtain ⟨h1, h2⟩ := h; unfold RingHead.cnt cntN nextIdx; split <;> split <;> omega
+
+theorem cnt_lt (r : RingHead) (h : r.WF) : r.cnt < r.size.toNat := by
+  obtain ⟨h1, h2⟩ := h; unfold RingHead.cnt cntN; split <;> omega
+
+/-- the `while (x >= size) x -= size;` loop computes `x mod size` (fuel `x` suffices) -/
+theorem fixupLoop_toNat (size : U32) (hs : 0 < size.toNat) :
+    ∀ (fuel : Nat) (x : U32), x.toNat ≤ fuel →
+      (fixupLoop size fuel x).toNat = x.toNat % size.toNat
+  | 0, x, h => by
+      have h0 : x.toNat = 0 := by omega
+      simp [fixupLoop, h0]
+  | fuel + 1, x, h => by
+      unfold fixupLoop
+      split
+      · have hle : size.toNat ≤ x.toNat := by bv_omega
+        have e : (x - size).toNat = x.toNat - size.toNat := by bv_omega
+        rw [fixupLoop_toNat size hs fuel (x - size) (by omega), e, ← Nat.mod_eq_sub_mod hle]
+      · have hlt : x.toNat < size.toNat := by bv_omega
+        rw [Nat.mod_eq_of_lt hlt]
+
+theorem moveHead_head (r : RingHead) (hs : 0 < r.size.toNat) (b : U32) :
+    (ringMoveHead r b).head.toNat = ((r.head.toNat + b.toNat) % 2 ^ 32) % r.size.toNat := by
+  unfold ringMoveHead ringFixupHead
+  simp only
+  rw [fixupLoop_toNat r.size hs _ _ (Nat.le_refl _), BitVec.toNat_add]
+
+theorem moveTail_tail (r : RingHead) (hs : 0 < r.size.toNat) (b : U32) :
+    (ringMoveTail r b).tail.toNat = ((r.tail.toNat + b.toNat) % 2 ^ 32) % r.size.toNat := by
+  unfold ringMoveTail ringFixupTail
+  simp only
+  rw [fixupLoop_toNat r.size hs _ _ (Nat.le_refl _), BitVec.toNat_add]
+
+
+/-! ### slot arithmetic in `Nat` -/
+
+theorem cntN_lt {S H T : Nat} (h1 : H < S) (h2 : T < S) : cntN S H T < S := by
+  unfold cntN; grind
+
+theorem cntN_next_head {S H T : Nat} (h1 : H < S) (h2 : T < S) (hr : cntN S H T < S - 1) :
+    cntN S (nextIdx S H) T = cntN S H T + 1 := by
+  unfold cntN nextIdx at *; grind
+
+theorem cntN_next_tail {S H T : Nat} (_h1 : H < S) (h2 : T < S) (hr : 0 < cntN S H T) :
+    cntN S H (nextIdx S T) = cntN S H T - 1 := by
+  unfold cntN nextIdx at *; grind
+
+theorem nextIdx_lt {S x : Nat} (h : x < S) : nextIdx S x < S := by
+  unfold nextIdx; grind
+
+theorem slot_ne_head {S H T i : Nat} (h1 : H < S) (h2 : T < S) (hi : i < cntN S H T) :
+    (T + i) % S ≠ H := by
+  have : i < S := by unfold cntN at hi; grind
+  rw [mod_wrap (by omega)]; unfold cntN at hi; grind
+
+theorem slot_cnt_head {S H T : Nat} (h1 : H < S) (h2 : T < S) :
+    (T + cntN S H T) % S = H := by
+  have : cntN S H T < S := cntN_lt h1 h2
+  rw [mod_wrap (by omega)]; unfold cntN at *; grind
+
+theorem slot_next_tail {S T i : Nat} (h2 : T < S) (hi : i + 1 < S) :
+    (nextIdx S T + i) % S = (T + (i + 1)) % S := by
+  rw [mod_wrap (by unfold nextIdx; grind), mod_wrap (by omega)]; unfold nextIdx; grind
+
+/-- bulk move of the head by `n ≤ room` -/
+theorem cntN_add_head {S H T n : Nat} (h1 : H < S) (h2 : T < S) (hn : n ≤ S - 1 - cntN S H T) :
+    cntN S ((H + n) % S) T = cntN S H T + n := by
+  rw [mod_wrap (by omega)]; unfold cntN at *; grind
+
+theorem cntN_add_tail {S H T n : Nat} (h1 : H < S) (h2 : T < S) (hn : n ≤ cntN S H T) :
+    cntN S H ((T + n) % S) = cntN S H T - n := by
+  have : cntN S H T < S := cntN_lt h1 h2
+  rw [mod_wrap (by omega)]; unfold cntN at *; grind
+
+theorem slot_free {S H T i j : Nat} (h1 : H < S) (h2 : T < S) (hi : i < cntN S H T)
+    (hj : j < S - 1 - cntN S H T) : (T + i) % S ≠ (H + j) % S := by
+  have : cntN S H T < S := cntN_lt h1 h2
+  rw [mod_wrap (by omega), mod_wrap (by omega)]; unfold cntN at *; grind
+
+theorem slot_cnt_add {S H T j : Nat} (h1 : H < S) (h2 : T < S) (hj : j < S - cntN S H T) :
+    (T + (cntN S H T + j)) % S = (H + j) % S := by
+  have : cntN S H T < S := cntN_lt h1 h2
+  rw [mod_wrap (by omega), mod_wrap (by omega)]; unfold cntN at *; grind
+
+theorem slot_add_tail {S T n i : Nat} (h2 : T < S) (hn : n < S) (hi : n + i < S) :
+    ((T + n) % S + i) % S = (T + (n + i)) % S := by
+  rw [mod_wrap (x := T + n) (by omega)]
+  split
+  · rw [show T + n + i = T + (n + i) by omega]
+  · rw [mod_wrap (by omega), mod_wrap (by omega)]; grind
+
+theorem slot_inj {S p i j : Nat} (hS : 0 < S) (hi : i < S) (hj : j < S) (hne : i ≠ j) :
+    (p + i) % S ≠ (p + j) % S := by
+  have hp : p % S < S := Nat.mod_lt _ hS
+  rw [Nat.add_mod p i, Nat.add_mod p j, Nat.mod_eq_of_lt hi, Nat.mod_eq_of_lt hj]
+  generalize p % S = a at hp ⊢
+  rw [mod_wrap (by omega), mod_wrap (by omega)]
+  grind
+
+/-! ### layer 2: abstraction relation -/
+
+/-- `Abs r buf q`: the ring described by `r` over the buffer `buf` stores exactly
+the queue `q` (oldest first): the index invariant holds, the buffer covers
+`size` slots, `q` has `(head − tail) mod size` elements and element `i` sits
+in slot `(tail + i) mod size`. -/
+def Abs {α : Type} (r : RingHead) (buf : List α) (q : List α) : Prop :=
+  r.WF ∧ r.size.toNat ≤ buf.length ∧ q.length = r.cnt ∧
+  ∀ i (h : i < q.length), buf[(r.tail.toNat + i) % r.size.toNat]? = some q[i]
+
+section
+variable {α : Type}
+
+theorem abs_init (size : U32) (buf : List α) (hs : 0 < size.toNat) (hb : size.toNat ≤ buf.length) :
+    Abs (ringInit size) buf [] := by
+  refine ⟨⟨?_, ?_⟩, hb, ?_, ?_⟩ <;> simp [ringInit, RingHead.cnt, cntN, hs]
+
+theorem abs_clean {r : RingHead} {buf q : List α} (h : Abs r buf q) : Abs (ringClean r) buf [] := by
+  obtain ⟨⟨h1, h2⟩, hb, -, -⟩ := h
+  refine ⟨⟨?_, ?_⟩, hb, ?_, ?_⟩ <;> simp [ringClean, RingHead.cnt, cntN] <;> omega
+
+theorem abs_not_full {r : RingHead} {buf q : List α} (h : Abs r buf q)
+    (hroom : q.length < r.size.toNat - 1) : ringFull r = false := by
+  obtain ⟨wf, -, hl, -⟩ := h
+  cases e : ringFull r
+  · rfl
+  · rw [full_iff_cnt r wf] at e; omega
+
+theorem abs_full {r : RingHead} {buf q : List α} (h : Abs r buf q)
+    (hfull : q.length = r.size.toNat - 1) : ringFull r = true := by
+  obtain ⟨wf, -, hl, -⟩ := h
+  rw [full_iff_cnt r wf]; omega
+
+/-- publishing one slot: whatever value sits in slot `head` joins the queue -/
+theorem abs_moveHeadOne {r : RingHead} {buf q : List α} {c : α} (h : Abs r buf q)
+    (hroom : q.length < r.size.toNat - 1) (hc : buf[r.head.toNat]? = some c) :
+    Abs (ringMoveHeadOne r) buf (q ++ [c]) := by
+  obtain ⟨⟨h1, h2⟩, hb, hl, hq⟩ := h
+  have hH := moveHeadOne_head r h1
+  unfold RingHead.cnt at hl
+  refine ⟨⟨?_, by simpa using h2⟩, by simpa using hb, ?_, ?_⟩
+  · rw [hH]; exact nextIdx_lt h1
+  · simp only [List.length_append, List.length_singleton, hl, RingHead.cnt, hH,
+      moveHeadOne_tail, moveHeadOne_size]
+    rw [cntN_next_head h1 h2 (by omega)]
+  · intro i hi
+    simp only [moveHeadOne_tail, moveHeadOne_size]
+    simp only [List.length_append, List.length_singleton] at hi
+    by_cases hlt : i < q.length
+    · rw [hq i hlt, List.getElem_append_left hlt]
+    · have hie : i = q.length := by omega
+      have e : (r.tail.toNat + i) % r.size.toNat = r.head.toNat := by
+        rw [hie, hl]; exact slot_cnt_head h1 h2
+      rw [e, hc, List.getElem_append_right (by omega)]
+      simp
+
+theorem abs_set_head {r : RingHead} {buf q : List α} (c : α) (h : Abs r buf q) :
+    Abs r (buf.set r.head.toNat c) q := by
+  obtain ⟨⟨h1, h2⟩, hb, hl, hq⟩ := h
+  refine ⟨⟨h1, h2⟩, by simpa using hb, hl, ?_⟩
+  intro i hi
+  have hne : r.head.toNat ≠ (r.tail.toNat + i) % r.size.toNat :=
+    fun e => slot_ne_head h1 h2 (by unfold RingHead.cnt at hl; omega) e.symm
+  rw [List.getElem?_set_ne hne, hq i hi]
+
+theorem abs_putc {r : RingHead} {buf q : List α} (c : α) (h : Abs r buf q)
+    (hroom : q.length < r.size.toNat - 1) :
+    ringPutc r buf c = some (ringMoveHeadOne r, buf.set r.head.toNat c, 1) ∧
+    Abs (ringMoveHeadOne r) (buf.set r.head.toNat c) (q ++ [c]) := by
+  have hnf := abs_not_full h hroom
+  have hlen : r.head.toNat < buf.length := by
+    obtain ⟨⟨h1, h2⟩, hb, -, -⟩ := h; omega
+  constructor
+  · simp [ringPutc, hnf, poke, hlen]
+  · exact abs_moveHeadOne (abs_set_head c h) hroom (List.getElem?_set_self hlen)
+
+theorem abs_putc_full {r : RingHead} {buf q : List α} (c : α) (h : Abs r buf q)
+    (hfull : q.length = r.size.toNat - 1) : ringPutc r buf c = some (r, buf, 0) := by
+  simp [ringPutc, abs_full h hfull]
+
+/-- releasing one slot -/
+theorem abs_moveTailOne {r : RingHead} {buf : List α} {x : α} {q : List α} (h : Abs r buf (x :: q)) :
+    buf[r.tail.toNat]? = some x ∧ Abs (ringMoveTailOne r) buf q := by
+  obtain ⟨⟨h1, h2⟩, hb, hl, hq⟩ := h
+  have hT := moveTailOne_tail r h2
+  unfold RingHead.cnt at hl
+  simp only [List.length_cons] at hl
+  have hlt := cntN_lt h1 h2
+  constructor
+  · have := hq 0 (by simp)
+    simpa [Nat.mod_eq_of_lt h2] using this
+  · refine ⟨⟨by simpa using h1, ?_⟩, by simpa using hb, ?_, ?_⟩
+    · rw [hT]; exact nextIdx_lt h2
+    · simp only [RingHead.cnt, hT, moveTailOne_head, moveTailOne_size]
+      rw [cntN_next_tail h1 h2 (by omega)]; omega
+    · intro i hi
+      simp only [hT, moveTailOne_size]
+      rw [slot_next_tail h2 (by omega)]
+      have := hq (i + 1) (by simp; omega)
+      simpa using this
+
+theorem abs_nonempty {r : RingHead} {buf q : List α} (h : Abs r buf q) (hq : q ≠ []) :
+    ringEmpty r = false := by
+  obtain ⟨wf, -, hl, -⟩ := h
+  cases e : ringEmpty r
+  · rfl
+  · rw [empty_iff_cnt r wf] at e
+    have : q.length ≠ 0 := by simpa using hq
+    omega
+
+theorem abs_empty {r : RingHead} {buf : List α} (h : Abs r buf []) : ringEmpty r = true := by
+  obtain ⟨wf, -, hl, -⟩ := h
+  rw [empty_iff_cnt r wf]; simpa using hl.symm
+
+end
+
+theorem abs_getc {r : RingHead} {buf : List Byte} {x : Byte} {q : List Byte} (h : Abs r buf (x :: q)) :
+    ringGetc r buf = some (ringMoveTailOne r, (x.toNat : Int)) ∧ Abs (ringMoveTailOne r) buf q := by
+  obtain ⟨hx, ha⟩ := abs_moveTailOne h
+  refine ⟨?_, ha⟩
+  simp [ringGetc, ringGetcWith, abs_nonempty h (by simp), hx]
+
+theorem abs_getc_empty {r : RingHead} {buf : List Byte} (h : Abs r buf []) :
+    ringGetc r buf = some (r, -1) := by
+  simp [ringGetc, ringGetcWith, abs_empty h]
+
+
+/-! ### the loops `ring_write` / `ring_read` -/
+
+theorem abs_writeAux {α : Type} : ∀ (d : List α) {r : RingHead} {buf q : List α} (ret : Nat),
+    Abs r buf q →
+    ∃ r' buf', ringWriteAux d r buf ret =
+        some (r', buf', ret + min d.length (r.size.toNat - 1 - q.length)) ∧
+      r'.size = r.size ∧
+      Abs r' buf' (q ++ d.take (r.size.toNat - 1 - q.length))
+  | [], r, buf, q, ret, h => ⟨r, buf, by simp [ringWriteAux], rfl, by simpa using h⟩
+  | c :: rest, r, buf, q, ret, h => by
+      by_cases hroom : q.length < r.size.toNat - 1
+      · obtain ⟨e, ha⟩ := abs_putc c h hroom
+        obtain ⟨r', buf', e', hs, ha'⟩ := abs_writeAux rest (ret + 1) ha
+        have hstep : ringWriteAux (c :: rest) r buf ret =
+            ringWriteAux rest (ringMoveHeadOne r) (buf.set r.head.toNat c) (ret + 1) := by
+          simp [ringWriteAux, e]
+        refine ⟨r', buf', ?_, by simpa using hs, ?_⟩
+        · rw [hstep, e']
+          have : ret + 1 + min rest.length ((ringMoveHeadOne r).size.toNat - 1 - (q ++ [c]).length) =
+              ret + min (c :: rest).length (r.size.toNat - 1 - q.length) := by
+            simp only [moveHeadOne_size, List.length_append, List.length_cons, List.length_nil]
+            omega
+          rw [this]
+        · have hk : r.size.toNat - 1 - q.length =
+              ((ringMoveHeadOne r).size.toNat - 1 - (q ++ [c]).length) + 1 := by
+            simp only [moveHeadOne_size, List.length_append, List.length_cons, List.length_nil]
+            omega
+          rw [hk, List.take_succ_cons]
+          simpa using ha'
+      · have hl := h.2.2.1
+        have := cnt_lt r h.1
+        have hfull : q.length = r.size.toNat - 1 := by omega
+        refine ⟨r, buf, ?_, rfl, ?_⟩
+        · simp [ringWriteAux, abs_putc_full c h hfull, hfull]
+        · simpa [hfull] using h
+
+theorem abs_write {α : Type} {r : RingHead} {buf q : List α} (d : List α) (h : Abs r buf q) :
+    ∃ r' buf', ringWrite r buf d = some (r', buf', min d.length (r.size.toNat - 1 - q.length)) ∧
+      r'.size = r.size ∧ Abs r' buf' (q ++ d.take (r.size.toNat - 1 - q.length)) := by
+  simpa [ringWrite] using abs_writeAux d 0 h
+
+theorem ofInt8_toNat (x : Byte) : BitVec.ofInt 8 (x.toNat : Int) = x := by
+  apply BitVec.eq_of_toNat_eq
+  simp
+
+theorem abs_readWith : ∀ (n : Nat) {r : RingHead} {buf q : List Byte} (acc : List Byte),
+    Abs r buf q →
+    ∃ r', ringReadWith ringGetc buf n r acc = some (r', acc ++ q.take n) ∧
+      r'.size = r.size ∧ Abs r' buf (q.drop n)
+  | 0, r, buf, q, acc, h => ⟨r, by simp [ringReadWith], rfl, by simpa using h⟩
+  | n + 1, r, buf, q, acc, h => by
+      cases q with
+      | nil => exact ⟨r, by simp [ringReadWith, abs_getc_empty h], rfl, by simpa using h⟩
+      | cons x q =>
+        obtain ⟨e, ha⟩ := abs_getc h
+        obtain ⟨r', e', hs, ha'⟩ := abs_readWith n (acc ++ [x]) ha
+        refine ⟨r', ?_, by simpa using hs, by simpa using ha'⟩
+        have hne : ((x.toNat : Int) == -1) = false := by
+          have : (x.toNat : Int) ≠ -1 := by omega
+          simpa using this
+        simp only [ringReadWith, e, hne, ofInt8_toNat, e']
+        simp
+
+theorem abs_read {r : RingHead} {buf q : List Byte} (n : Nat) (h : Abs r buf q) :
+    ∃ r', ringRead r buf n = some (r', q.take n) ∧ r'.size = r.size ∧ Abs r' buf (q.drop n) := by
+  simpa [ringRead] using abs_readWith n [] h
+
+
+/-! ### bulk moves -/
+
+section
+variable {α : Type}
+
+theorem ofNat32_toNat {n S : Nat} (hn : n < S) (hS : S ≤ 2 ^ 31) : (BitVec.ofNat 32 n).toNat = n := by
+  simp only [BitVec.toNat_ofNat]; omega
+
+/-- `ring_move_head(n)` with `n ≤ room`: the `n` slots after `head` join the queue -/
+theorem abs_moveHead {r : RingHead} {buf q : List α} (d : List α) (h : Abs r buf q)
+    (hS : r.size.toNat ≤ 2 ^ 31) (hn : d.length ≤ r.size.toNat - 1 - q.length)
+    (hd : ∀ j (hj : j < d.length), buf[(r.head.toNat + j) % r.size.toNat]? = some d[j]) :
+    Abs (ringMoveHead r (BitVec.ofNat 32 d.length)) buf (q ++ d) := by
+  obtain ⟨⟨h1, h2⟩, hb, hl, hq⟩ := h
+  unfold RingHead.cnt at hl
+  have hN : (BitVec.ofNat 32 d.length).toNat = d.length := ofNat32_toNat (S := r.size.toNat) (by omega) hS
+  have hH : (ringMoveHead r (BitVec.ofNat 32 d.length)).head.toNat =
+      (r.head.toNat + d.length) % r.size.toNat := by
+    rw [moveHead_head r (by omega), hN, Nat.mod_eq_of_lt (a := r.head.toNat + d.length) (by omega)]
+  refine ⟨⟨?_, by simpa using h2⟩, by simpa using hb, ?_, ?_⟩
+  · rw [hH]; exact Nat.mod_lt _ (by omega)
+  · simp only [List.length_append, RingHead.cnt, hH, moveHead_tail, moveHead_size]
+    rw [cntN_add_head h1 h2 (by omega)]; omega
+  · intro i hi
+    simp only [moveHead_tail, moveHead_size]
+    simp only [List.length_append] at hi
+    by_cases hlt : i < q.length
+    · rw [hq i hlt, List.getElem_append_left hlt]
+    · have hj : i - q.length < d.length := by omega
+      have e : (r.tail.toNat + i) % r.size.toNat = (r.head.toNat + (i - q.length)) % r.size.toNat := by
+        have : i = cntN r.size.toNat r.head.toNat r.tail.toNat + (i - q.length) := by omega
+        rw [this, slot_cnt_add h1 h2 (by omega)]
+        congr 2; omega
+      rw [e, hd _ hj, List.getElem_append_right (by omega)]
+
+/-- `ring_move_tail(n)` with `n ≤ avail`: the `n` oldest elements leave the queue -/
+theorem abs_moveTail {r : RingHead} {buf q : List α} (n : Nat) (h : Abs r buf q)
+    (hS : r.size.toNat ≤ 2 ^ 31) (hn : n ≤ q.length) :
+    Abs (ringMoveTail r (BitVec.ofNat 32 n)) buf (q.drop n) := by
+  obtain ⟨⟨h1, h2⟩, hb, hl, hq⟩ := h
+  unfold RingHead.cnt at hl
+  have hlt := cntN_lt h1 h2
+  have hN : (BitVec.ofNat 32 n).toNat = n := ofNat32_toNat (S := r.size.toNat) (by omega) hS
+  have hT : (ringMoveTail r (BitVec.ofNat 32 n)).tail.toNat = (r.tail.toNat + n) % r.size.toNat := by
+    rw [moveTail_tail r (by omega), hN, Nat.mod_eq_of_lt (a := r.tail.toNat + n) (by omega)]
+  refine ⟨⟨by simpa using h1, ?_⟩, by simpa using hb, ?_, ?_⟩
+  · rw [hT]; exact Nat.mod_lt _ (by omega)
+  · simp only [List.length_drop, RingHead.cnt, hT, moveTail_head, moveTail_size]
+    rw [cntN_add_tail h1 h2 (by omega)]; omega
+  · intro i hi
+    simp only [List.length_drop] at hi
+    simp only [hT, moveTail_size]
+    rw [slot_add_tail h2 (by omega) (by omega), hq (n + i) (by omega)]
+    simp
+
+/-- user-side fill of `d.length ≤ size` consecutive slots starting at `p` -/
+theorem directFill_spec : ∀ (d : List α) (buf : List α) (S p : Nat), 0 < S → S ≤ buf.length →
+    d.length ≤ S →
+    ∃ buf', directFill buf S p d = some buf' ∧ buf'.length = buf.length ∧
+      (∀ j (hj : j < d.length), buf'[(p + j) % S]? = some d[j]) ∧
+      (∀ k, (∀ j, j < d.length → k ≠ (p + j) % S) → buf'[k]? = buf[k]?)
+  | [], buf, S, p, _, _, _ => ⟨buf, rfl, rfl, by simp, by simp⟩
+  | c :: rest, buf, S, p, hS, hb, hd => by
+      have hp : p % S < buf.length := Nat.lt_of_lt_of_le (Nat.mod_lt _ hS) hb
+      simp only [List.length_cons] at hd
+      obtain ⟨buf', e, hlen, hw, hf⟩ :=
+        directFill_spec rest (buf.set (p % S) c) S (p + 1) hS (by simpa using hb) (by omega)
+      refine ⟨buf', by simp [directFill, poke, hp, e], by simpa using hlen, ?_, ?_⟩
+      · intro j hj
+        cases j with
+        | zero =>
+          have := hf (p % S) (fun j hj' => by
+            have := slot_inj (p := p) hS (i := 0) (j := j + 1) (by omega) (by omega) (by omega)
+            rw [show p + 1 + j = p + (j + 1) by omega]
+            simpa using this)
+          simp only [Nat.add_zero, this, List.getElem_cons_zero]
+          exact List.getElem?_set_self hp
+        | succ j =>
+          have := hw j (by simpa using hj)
+          rw [show p + 1 + j = p + (j + 1) by omega] at this
+          simpa using this
+      · intro k hk
+        rw [hf k (fun j hj => by
+          have := hk (j + 1) (by simp; omega)
+          rwa [show p + (j + 1) = p + 1 + j by omega] at this)]
+        exact List.getElem?_set_ne (by have := hk 0 (by simp); simpa using this.symm)
+
+theorem directPeek_spec : ∀ (n : Nat) (buf : List α) (S p : Nat) (l : List α), l.length = n →
+    (∀ j (hj : j < l.length), buf[(p + j) % S]? = some l[j]) → directPeek buf S p n = some l
+  | 0, buf, S, p, l, hl, _ => by
+      have : l = [] := List.eq_nil_of_length_eq_zero hl
+      simp [directPeek, this]
+  | n + 1, buf, S, p, l, hl, h => by
+      cases l with
+      | nil => simp at hl
+      | cons x l =>
+        have h0 := h 0 (by simp)
+        simp only [Nat.add_zero, List.getElem_cons_zero] at h0
+        have ih := directPeek_spec n buf S (p + 1) l (by simpa using hl) (fun j hj => by
+          have := h (j + 1) (by simpa using hj)
+          rw [show p + (j + 1) = p + 1 + j by omega] at this
+          simpa using this)
+        simp [directPeek, h0, ih]
+
+end
+
+/-! ### reference FIFO and refinement of every operation -/
+
+/-- The reference: a bounded FIFO queue of bytes with capacity `cap`.  `none`
+means that the operation is outside the producer/consumer contract of the bulk
+moves (publishing more slots than are free, releasing more than are stored, or
+a bare head move, which publishes slots the reference never saw). -/
+def specStep (cap : Nat) (q : List Byte) : Op → Option (List Byte × Out)
+  | .putc c => if q.length < cap then some (q ++ [c], .int 1) else some (q, .int 0)
+  | .getc =>
+    match q with
+    | [] => some ([], .int (-1))
+    | x :: t => some (t, .int x.toNat)
+  | .write d => some (q ++ d.take (cap - q.length), .count (min d.length (cap - q.length)))
+  | .read n => some (q.drop n, .bytes (q.take n))
+  | .produce d => if d.length ≤ cap - q.length then some (q ++ d, .unit) else none
+  | .produce1 c => if q.length < cap then some (q ++ [c], .unit) else none
+  | .consume n => if n ≤ q.length then some (q.drop n, .bytes (q.take n)) else none
+  | .consume1 =>
+    match q with
+    | [] => none
+    | x :: t => some (t, .bytes [x])
+  | .moveTail n => if n.toNat ≤ q.length then some (q.drop n.toNat, .unit) else none
+  | .moveTailOne =>
+    match q with
+    | [] => none
+    | _ :: t => some (t, .unit)
+  | .moveHead _ => none
+  | .moveHeadOne => none
+  | .clean => some ([], .unit)
+
+def runSpec (cap : Nat) : List Byte → List Op → Option (List Byte × List Out)
+  | q, [] => some (q, [])
+  | q, op :: ops =>
+    match specStep cap q op with
+    | none => none
+    | some (q', o) =>
+      match runSpec cap q' ops with
+      | none => none
+      | some (q'', os) => some (q'', o :: os)
+
+
+theorem abs_size_pos {α : Type} {r : RingHead} {buf q : List α} (h : Abs r buf q) : 0 < r.size.toNat := by
+  obtain ⟨⟨h1, _⟩, _⟩ := h; omega
+
+theorem abs_len_le {α : Type} {r : RingHead} {buf q : List α} (h : Abs r buf q) :
+    q.length ≤ r.size.toNat - 1 := by
+  have := cnt_lt r h.1
+  have := h.2.2.1
+  omega
+
+/-- every operation of the ring does what the reference FIFO does -/
+theorem step_refines {r : RingHead} {buf q : List Byte} (h : Abs r buf q)
+    (hS : r.size.toNat ≤ 2 ^ 31) (op : Op) {q' : List Byte} {o : Out}
+    (hs : specStep (r.size.toNat - 1) q op = some (q', o)) :
+    ∃ r' buf', stepRing r buf op = some (r', buf', o) ∧ r'.size = r.size ∧ Abs r' buf' q' := by
+  have hle := abs_len_le h
+  have hpos := abs_size_pos h
+  cases op with
+  | putc c =>
+    simp only [specStep] at hs
+    split at hs
+    · obtain ⟨rfl, rfl⟩ : q ++ [c] = q' ∧ Out.int 1 = o := by simpa using hs
+      obtain ⟨e, ha⟩ := abs_putc c h (by assumption)
+      exact ⟨ringMoveHeadOne r, buf.set r.head.toNat c, by simp [stepRing, e], by simp, ha⟩
+    · obtain ⟨rfl, rfl⟩ : q = q' ∧ Out.int 0 = o := by simpa using hs
+      exact ⟨r, buf, by simp [stepRing, abs_putc_full c h (by omega)], rfl, h⟩
+  | getc =>
+    cases q with
+    | nil =>
+      obtain ⟨rfl, rfl⟩ : [] = q' ∧ Out.int (-1) = o := by simpa [specStep] using hs
+      exact ⟨r, buf, by simp [stepRing, abs_getc_empty h], rfl, h⟩
+    | cons x t =>
+      obtain ⟨rfl, rfl⟩ : t = q' ∧ Out.int x.toNat = o := by simpa [specStep] using hs
+      obtain ⟨e, ha⟩ := abs_getc h
+      exact ⟨ringMoveTailOne r, buf, by simp [stepRing, e], by simp, ha⟩
+  | write d =>
+    obtain ⟨rfl, rfl⟩ : q ++ d.take (r.size.toNat - 1 - q.length) = q' ∧
+        Out.count (min d.length (r.size.toNat - 1 - q.length)) = o := by simpa [specStep] using hs
+    obtain ⟨r', buf', e, hsz, ha⟩ := abs_write d h
+    exact ⟨r', buf', by simp [stepRing, e], hsz, ha⟩
+  | read n =>
+    obtain ⟨rfl, rfl⟩ : q.drop n = q' ∧ Out.bytes (q.take n) = o := by simpa [specStep] using hs
+    obtain ⟨r', e, hsz, ha⟩ := abs_read n h
+    exact ⟨r', buf, by simp [stepRing, e], hsz, ha⟩
+  | produce d =>
+    simp only [specStep] at hs
+    split at hs
+    · rename_i hd
+      obtain ⟨rfl, rfl⟩ : q ++ d = q' ∧ Out.unit = o := by simpa using hs
+      obtain ⟨wf, hb, hl, hq⟩ := h
+      obtain ⟨buf', e, hlen, hw, hf⟩ := directFill_spec d buf r.size.toNat r.head.toNat hpos hb (by omega)
+      have ha : Abs r buf' q := by
+        refine ⟨wf, by omega, hl, fun i hi => ?_⟩
+        rw [hf _ (fun j hj => slot_free wf.1 wf.2 (by unfold RingHead.cnt at hl; omega)
+          (by unfold RingHead.cnt at hl; omega)), hq i hi]
+      exact ⟨ringMoveHead r (BitVec.ofNat 32 d.length), buf', by simp [stepRing, e], by simp,
+        abs_moveHead d ha hS hd hw⟩
+    · simp at hs
+  | produce1 c =>
+    simp only [specStep] at hs
+    split at hs
+    · rename_i hd
+      obtain ⟨rfl, rfl⟩ : q ++ [c] = q' ∧ Out.unit = o := by simpa using hs
+      have hlen : r.head.toNat < buf.length := by
+        obtain ⟨⟨h1, h2⟩, hb, -, -⟩ := h; omega
+      exact ⟨ringMoveHeadOne r, buf.set r.head.toNat c, by simp [stepRing, poke, hlen], by simp,
+        abs_moveHeadOne (abs_set_head c h) hd (List.getElem?_set_self hlen)⟩
+    · simp at hs
+  | consume n =>
+    simp only [specStep] at hs
+    split at hs
+    · rename_i hn
+      obtain ⟨rfl, rfl⟩ : q.drop n = q' ∧ Out.bytes (q.take n) = o := by simpa using hs
+      have e := directPeek_spec n buf r.size.toNat r.tail.toNat (q.take n)
+        (by simp; omega) (fun j hj => by
+          have hj' : j < q.length := by simp at hj; omega
+          rw [h.2.2.2 j hj']; simp)
+      exact ⟨ringMoveTail r (BitVec.ofNat 32 n), buf, by simp [stepRing, e], by simp,
+        abs_moveTail n h hS hn⟩
+    · simp at hs
+  | consume1 =>
+    cases q with
+    | nil => simp [specStep] at hs
+    | cons x t =>
+      obtain ⟨rfl, rfl⟩ : t = q' ∧ Out.bytes [x] = o := by simpa [specStep] using hs
+      obtain ⟨hx, ha⟩ := abs_moveTailOne h
+      exact ⟨ringMoveTailOne r, buf, by simp [stepRing, hx], by simp, ha⟩
+  | moveHead n => simp [specStep] at hs
+  | moveHeadOne => simp [specStep] at hs
+  | moveTail n =>
+    simp only [specStep] at hs
+    split at hs
+    · rename_i hn
+      obtain ⟨rfl, rfl⟩ : q.drop n.toNat = q' ∧ Out.unit = o := by simpa using hs
+      have := abs_moveTail n.toNat h hS hn
+      rw [BitVec.ofNat_toNat, BitVec.setWidth_eq] at this
+      exact ⟨ringMoveTail r n, buf, by simp [stepRing], by simp, this⟩
+    · simp at hs
+  | moveTailOne =>
+    cases q with
+    | nil => simp [specStep] at hs
+    | cons x t =>
+      obtain ⟨rfl, rfl⟩ : t = q' ∧ Out.unit = o := by simpa [specStep] using hs
+      exact ⟨ringMoveTailOne r, buf, by simp [stepRing], by simp, (abs_moveTailOne h).2⟩
+  | clean =>
+    obtain ⟨rfl, rfl⟩ : [] = q' ∧ Out.unit = o := by simpa [specStep] using hs
+    exact ⟨ringClean r, buf, by simp [stepRing], by simp [ringClean], abs_clean h⟩
+
 end Igris.C03
